@@ -46,6 +46,9 @@ func lexJudge(base, p, got string) (kind, expected string) {
 	if dotFree(p) && gl.String() != exp.String() {
 		return "dotfree-join", fmt.Sprintf("%q (base joined with the segments of the dot-free path)", exp.String())
 	}
+	if dotFree(p) && got != exp.String() {
+		return "dotfree-unclean", fmt.Sprintf("%q exactly (the cleaned base joined with the segments of the dot-free path)", exp.String())
+	}
 	return "", ""
 }
 
